@@ -12,17 +12,33 @@ FUNCTIONS = ['hotxlfp.grammarparser.parser:FormulaParser.p_expression_arithmetic
              'hotxlfp.grammarparser.parser:FormulaParser.p_expression_uminus',
              'hotxlfp.grammarparser.parser:FormulaParser.p_expression_paren',
              'hotxlfp.grammarparser.parser:FormulaParser.p_expression_number']
-RULE = ('seeded expression trees (depth <= 6 quick, <= 9 thorough) over integer/decimal literals, variables, cell references, '
-        'calls, unary minus, + - * /, one comparison per parenthesis-free region and top-level & chains; each rendered with '
-        'minimal parentheses (for the precedence the statement prescribes), fully parenthesised, and with redundant '
-        'parentheses/white space. Compared: (a) the tree built by the real ply tables (semantic actions replaced after table '
-        'construction) with the model parser\'s tree; (b) model evaluation with real evaluation; oracle: value(minimal) = '
-        'value(full) = exact rational evaluation of the tree. Non-trivial = the tree contains at least two operators.')
+RULE = ('42 fixed formulas (as written; compared with the model only) and 2500*scale (thorough 60000) seeded expression trees of '
+        'depth <= 6 quick, <= 9 thorough: 60 % arithmetic trees, 25 % one comparison, 15 % top-level & chains of 2..4 integer '
+        'operands. Leaves: integer literals (15 primes), decimals, leading-dot decimals, percent and power literals, 4 variables, '
+        '5 cell references in the four $ patterns and either case, and (5 % of the leaves) the variables e_na/e_num/e_ref bound to '
+        'the error values #N/A/#NUM!/#REF! - the value of the tree is then the error met first, left to right. Inner nodes: + - * '
+        '/, unary minus, calls of the host function ID, parenthesised comparisons used as numbers, and (5 % of the operands of + '
+        '- * /) a parenthesised concatenation of integers read as the number its digits spell. In 30 % of the comparisons, when '
+        'all intermediate values of one side are doubles (integers below 2^53), the other side is a twin of the same exact value '
+        'written differently (n, n.0, 2n/2, .5*2n; the side itself when not whole) - the comparison sits on its boundary. The host function and the '
+        'cell and variable listeners evaluate further formulas on the same parser during the evaluation. Each tree is rendered '
+        'with minimal parentheses (for the precedence the statement prescribes), fully parenthesised, and with white space '
+        '(blanks, tabs, newlines at token boundaries) and, half of the time, a redundant outer pair of parentheses. Thorough '
+        'adds all 680 trees with 1..3 operators from + - * / < over the leaves 2,3,5,7 (minimal and full). Compared: (a) the tree built by the '
+        'real ply tables (semantic actions replaced after table construction) with the model parser\'s tree; (b) model evaluation '
+        'with real evaluation; oracle (trees): every rendering evaluates to the exact rational value of the tree (integers and '
+        'logicals exactly, floats within 1e-9, errors by code with result None, x/0 = #DIV/0!). A tree holding a comparison whose '
+        'sides agree within 1e-9 relative while some intermediate value is not a double is fragile: its value is judged neither by the '
+        'oracle nor against the model, its shape still is. Non-trivial = a fixed formula or a tree with at least two operators '
+        '(unary minus counts). When a proof or the correspondence broke: the quick generator at scale 10.')
 TRUSTED = ['ply.yacc LALR(1) table construction and conflict resolution: modelled by a precedence-climbing parser driven by the '
            'generated precedence table; tied by tree-shape correspondence, not proved',
-           'float arithmetic is compared with exact rational arithmetic up to 1e-9 relative error']
+           'float arithmetic is compared with exact rational arithmetic up to 1e-9 relative error (absolute below 1)']
 ASSUMPTIONS = ['relative precedence of & versus + - * / is not fixed by the statement: & appears only in top-level chains '
-               'with atomic or parenthesised operands']
+               'with atomic or parenthesised operands and inside parentheses as an operand of + - * /',
+               'usual reading of the values: unary minus and + - * / read a logical as 1/0, + - * / read digit text as its number; & joins the '
+               'decimal spellings of integers; a comparison of a number with a logical puts every number below every logical (C07); '
+               'an error operand makes the result that error, the left operand first']
 
 # the reading the statement prescribes (1 = loosest)
 SPEC = {'=': (1, 'left'), '<>': (1, 'left'), '<': (1, 'left'), '>': (1, 'left'), '<=': (1, 'left'), '>=': (1, 'left'),
